@@ -60,7 +60,8 @@ Inductive event :=
 | EApriori (r : Q) | EInteg (t : smtype) (f : smflag) | EApost (r : Q) | EExport | EIE | EDE | EMinTsf.
 Inductive kstate := KUntouched | KExported (t : smtype).
 Inductive sosstate := SUntouched | SInitial | SFinal.
-Inductive errtok := ErrNone | ErrInitFailed | ErrNoPrediction | ErrNoTangent | ErrExc (h : hook) | ErrBadStressMeasure | ErrBadTangent.
+Inductive errtok := ErrNone | ErrInitFailed | ErrNoPrediction | ErrNoTangent | ErrExc (h : hook) | ErrBadStressMeasure | ErrBadTangent
+  | ErrNoAxial. (* plane stress: the behaviour does not declare the axial strain / axial deformation gradient *)
 
 Record result := {
   ret : Z;                 (* value returned *)
@@ -349,3 +350,21 @@ Definition wrap (v : variant) (w : wrapper) (tr : traits) (K0 K1 K2 : Q) (p : po
       end
     end
   end.
+
+(* ------------------------------------------------------------------ the wrappers in every modelling hypothesis
+   [ps]: the hypothesis is PlaneStress or AxisymmetricalGeneralisedPlaneStress; [has_axial]: GenericBehaviourTraits declares
+   has_axial_strain_offset (strain measure wrappers) / has_axial_deformation_gradient_offset (finite strain wrapper).
+   In the plane stress branches the wrappers read the axial strain / axial deformation gradient in the internal state variables
+   (at the beginning of the step before the behaviour is built, at the end of the step when the stress is post-processed); a
+   behaviour that does not declare it is refused before it is built -- by the finite strain wrapper only when the stress
+   measure is not the Cauchy stress (the conversions are the only users of the axial deformation gradient).  Everything else
+   is independent of the hypothesis. *)
+Definition needs_axial (w : wrapper) (K1 : Q) : bool :=
+  match w with
+  | WFiniteStrain => match stress_measure K1 with Cauchy => false | _ => true end
+  | _ => true
+  end.
+Definition wrap_h (v : variant) (w : wrapper) (ps has_axial : bool) (tr : traits) (K0 K1 K2 : Q) (p : policy) (rdt0 : Q)
+  (s : script) : wresult :=
+  let r := wrap v w tr K0 K1 K2 p rdt0 s in
+  if w_called r && ps && negb has_axial && needs_axial w K1 then wrapper_error p rdt0 ErrNoAxial else r.
